@@ -13,7 +13,7 @@ COMB = ['And2', 'Or2', 'Not', 'Buf', 'Mux2', 'Sub', 'Mul', 'AddCarryIn', 'Consta
 SEQ = ['Reg', 'Sequence', 'SynchronousMemory', 'AutoReset']
 
 
-def random_plan(rng, n_nodes, seq_ratio=(1, 4), wmax=8, kinds=None, allow_feedback=True, extreme=False, n_domains=0):
+def random_plan(rng, n_nodes, seq_ratio=(1, 4), wmax=8, kinds=None, allow_feedback=True, extreme=False, n_domains=0, driver_wires=False):
     """n_domains > 0: a tree of hierarchy containers ('domains'); container 0 is the HWSystem (ungated clock);
     each other container has a parent container and optionally its own gated ClockDriver whose enable is a wire
     of the design (chosen late: may be a register inside the gated domain itself)."""
@@ -26,6 +26,14 @@ def random_plan(rng, n_nodes, seq_ratio=(1, 4), wmax=8, kinds=None, allow_feedba
         plan['domains'][-1]['drv_name'] = rng.fork(('drvname', di)).choice([f'gclk{di + 1}', f'gclk{di + 1}', 'gclk', 'clk'])
         # a gated driver may be DERIVED (base=) from the gated driver of an enclosing domain: it is still governed by its own enable only
         plan['domains'][-1]['base_parent'] = rng.fork(('base', di)).chance(1, 2)
+        if driver_wires:
+            # (C10, opt-in) the clock WIRE a driver is declared on: none, a wire of its own, or THE SAME Wire object as the driver in
+            # force for another container (0 = the system's 'clk' wire; the parent container = an ancestor's; any other = a
+            # sibling's / cousin's); and containers that carry their own FREE-RUNNING driver (possibly nested inside a gated domain)
+            rw_ = rng.fork(('drvwire', di))
+            plan['domains'][-1]['wire_mode'] = rw_.choice(['none', 'own', 'share', 'share'])
+            plan['domains'][-1]['wire_share'] = rw_.choice([0, plan['domains'][-1]['parent'], rw_.randint(0, di)])
+            plan['domains'][-1]['free_driver'] = (not plan['domains'][-1]['gated']) and rw_.chance(1, 2)
     nodes = plan['nodes']
     comb = [k for k in COMB if (kinds is None or k in kinds)]
     if kinds is not None and 'AsynchronousMemory' in kinds:
@@ -146,6 +154,8 @@ def random_plan(rng, n_nodes, seq_ratio=(1, 4), wmax=8, kinds=None, allow_feedba
         for nd in nodes:
             if nd['kind'] in SEQ and rng.chance(1, 5):
                 nd['own_driver'] = pick(n_nodes, 1) if rng.chance(3, 4) else pick(n_nodes)
+                if driver_wires:
+                    nd['own_driver_wire'] = rng.fork(('leafdrvwire', nd['name'])).choice(['none', 'own', 'share', 'share'])
     return plan
 
 
@@ -185,8 +195,21 @@ def build(plan, inst_order=None, wire_order=None, sysname=None, into=None, leaf_
     order = list(range(len(nodes))) if inst_order is None else list(inst_order)
     top = sysobj
     conts = [top if leaf_parent is None else leaf_parent]
+    in_force = [getattr(top, 'clockDriver', None)]       # per container: the driver its blocks were ASKED to run on
+
+    def clock_wire_(mode, share, tag):
+        if mode == 'own':
+            return top.wire(tag)
+        if mode == 'share' and in_force[share] is not None:
+            return in_force[share].wire                   # the very same Wire object (None when that driver has no clock wire)
+        return None
     for di, dm in enumerate(plan.get('domains', [])[1:], 1):
         c = py4hw.Logic(conts[dm['parent']], f'dom{di}')
+        if dm.get('free_driver'):
+            c.clockDriver = py4hw.ClockDriver(dm.get('drv_name', f'fclk{di}'), base=in_force[dm['parent']],
+                                              wire=clock_wire_(dm.get('wire_mode'), dm.get('wire_share', 0), f'fck{di}'))
+            c.clockDriver._verif_enable = None
+            c._verif_driver = c.clockDriver
         if dm['gated']:
             base = top.clockDriver
             if dm.get('base_parent'):
@@ -195,14 +218,20 @@ def build(plan, inst_order=None, wire_order=None, sysname=None, into=None, leaf_
                     o_ = getattr(o_, 'parent', None)
                 if o_ is not None:
                     base = o_.clockDriver
-            c.clockDriver = py4hw.ClockDriver(dm.get('drv_name', f'gclk{di}'), base=base, enable=W[tuple(dm['enable'])])
+            if dm.get('wire_mode') is None:
+                c.clockDriver = py4hw.ClockDriver(dm.get('drv_name', f'gclk{di}'), base=base, enable=W[tuple(dm['enable'])])
+            else:
+                c.clockDriver = py4hw.ClockDriver(dm.get('drv_name', f'gclk{di}'), base=base, enable=W[tuple(dm['enable'])],
+                                                  wire=clock_wire_(dm['wire_mode'], dm.get('wire_share', 0), f'gck{di}'))
             c.clockDriver._verif_enable = W[tuple(dm['enable'])]      # the enable the design ASKED for (oracles never trust the attribute)
+            c._verif_driver = c.clockDriver                           # … and the driver object the design ASKED for on this block
+        in_force.append(c.clockDriver if getattr(c, 'clockDriver', None) is not None else in_force[dm['parent']])
         conts.append(c)
     for pos_, j in enumerate(order):
         if pause_after is not None and pos_ == pause_after and on_pause is not None:
             on_pause(top)          # e.g. create the simulator on the partially built design (late additions follow)
         nd = nodes[j]
-        k, nm, p = nd['kind'], nd['name'], nd['params']
+        k, nm, p = nd['kind'], nd.get('inst', nd['name']), nd['params']     # optional 'inst': the INSTANCE name (leaves in different containers may share it); wires keep the unique nd['name']
         sysobj = conts[nd.get('dom', 0)]
         ins = [W[r] for r in nd['ins']]
         o = [W[('node', j, x)] for x in range(len(nd['outw']))]
@@ -240,10 +269,10 @@ def build(plan, inst_order=None, wire_order=None, sysname=None, into=None, leaf_
         elif k in ('SynchronousMemory', 'AsynchronousMemory'):
             aw = p['aw']
             # address wires of exactly aw bits fed through Bufs (width adaptation by the wire mask)
-            ra = top.wire(nm + '_ra', aw)
-            wa = top.wire(nm + '_wa', aw)
-            we = top.wire(nm + '_we', 1)
-            wd = top.wire(nm + '_wd', nd['outw'][0])
+            ra = top.wire(nd['name'] + '_ra', aw)
+            wa = top.wire(nd['name'] + '_wa', aw)
+            we = top.wire(nd['name'] + '_we', 1)
+            wd = top.wire(nd['name'] + '_wd', nd['outw'][0])
             B.Buf(sysobj, nm + '_bra', ins[0], ra)
             B.Buf(sysobj, nm + '_bwa', ins[1], wa)
             B.Buf(sysobj, nm + '_bwe', ins[2], we)
@@ -254,8 +283,13 @@ def build(plan, inst_order=None, wire_order=None, sysname=None, into=None, leaf_
         else:
             raise Exception('unknown kind ' + k)
         if nd.get('own_driver') is not None:
-            leaves[j].clockDriver = py4hw.ClockDriver(f'lclk{j}', base=top.clockDriver, enable=W[tuple(nd['own_driver'])])
+            if nd.get('own_driver_wire') is None:
+                leaves[j].clockDriver = py4hw.ClockDriver(f'lclk{j}', base=top.clockDriver, enable=W[tuple(nd['own_driver'])])
+            else:
+                leaves[j].clockDriver = py4hw.ClockDriver(f'lclk{j}', base=top.clockDriver, enable=W[tuple(nd['own_driver'])],
+                                                          wire=clock_wire_(nd['own_driver_wire'], nd.get('dom', 0), f'lck{j}'))
             leaves[j].clockDriver._verif_enable = W[tuple(nd['own_driver'])]
+            leaves[j]._verif_driver = leaves[j].clockDriver
     inputs = [W[('in', i)] for i in range(len(plan['inputs']))]
     sysobj = top
     sysobj._containers = conts
@@ -298,7 +332,8 @@ def register_inputs(plan):
 
 def plan_summary(plan):
     return {'inputs': plan['inputs'], 'domains': plan.get('domains'),
-            'nodes': [(n['kind'], n['ins'], n['outw'], n['params'], n.get('dom', 0), n.get('own_driver')) for n in plan['nodes']]}
+            'nodes': [(n['kind'], n['ins'], n['outw'], n['params'], n.get('dom', 0), n.get('own_driver')) + ((n['own_driver_wire'],) if n.get('own_driver_wire') else ())
+                      for n in plan['nodes']]}
 
 
 def reg_chain_plan(rng, wmax=8):
